@@ -98,10 +98,19 @@ StaleDefects(o, exp) ==
   \cup (IF o.open # OpenRes(exp, exp.metric) THEN {<<"C06", "open_" \o OpenRes(exp, exp.metric) \o "_expected_got_" \o o.open>>} ELSE {})
 
 \* beyond the listed properties (conformance only): Reader::stats and Reader::n_nodes agree with the forest
+\* arroy's own validator (Reader::assert_validity) against the specification's: it looks at everything
+\* ForestDefects does except the item list of the metadata ("skipped": the harness found a cycle, on
+\* which the validator would not terminate, or the caller had no decoded index at hand)
+ValidatorDrift(o, ix) ==
+  IF ~o.ok \/ ~o.rd.has \/ ix.meta = NoMeta \/ o.rd.valid = "skipped" THEN {}
+  ELSE LET d == ForestDefects(ix.nodes, ix.meta.roots, Live(ix), ix.meta.items) \ {"meta_items"}
+       IN IF (d = {}) # (o.rd.valid = "Ok") THEN {<<"C01", "assert_validity_disagrees_with_the_specification">>} ELSE {}
+
 ReaderDrift(o, ix) ==
   IF ~o.ok \/ ~o.rd.has \/ ix.meta = NoMeta THEN {}
-  ELSE IF ForestDefects(ix.nodes, ix.meta.roots, Live(ix), ix.meta.items) # {} THEN {}
-  ELSE (IF ~o.rd.stats_ok THEN {<<"C15", "reader_stats_failed_on_a_valid_forest">>}
+  ELSE IF ForestDefects(ix.nodes, ix.meta.roots, Live(ix), ix.meta.items) # {} THEN ValidatorDrift(o, ix)
+  ELSE ValidatorDrift(o, ix) \cup
+       (IF ~o.rd.stats_ok THEN {<<"C15", "reader_stats_failed_on_a_valid_forest">>}
         ELSE (IF o.rd.stats # [k \in DOMAIN ix.meta.roots |-> TreeStats(ix.nodes, TreeRef(ix.meta.roots[k]), Fuel(ix.nodes))]
               THEN {<<"C15", "reader_stats_differ_from_the_forest">>} ELSE {})
           \cup (IF o.rd.stats_leaf # Cardinality(Live(ix)) THEN {<<"C15", "reader_stats_leaf_count">>} ELSE {}))
